@@ -53,6 +53,7 @@ deriving DecidableEq, Repr
 
 inductive Err where
   | destCopyTooSmall | overflow | invalidArgument | matchNotFound | shortBuffer | listExceedsMaxSize
+  | fileInvalidPath | fileReadFailure
 deriving DecidableEq, Repr
 
 def Err.name : Err → String
@@ -62,6 +63,8 @@ def Err.name : Err → String
   | .matchNotFound => "AWS_ERROR_STRING_MATCH_NOT_FOUND"
   | .shortBuffer => "AWS_ERROR_SHORT_BUFFER"
   | .listExceedsMaxSize => "AWS_ERROR_LIST_EXCEEDS_MAX_SIZE"
+  | .fileInvalidPath => "AWS_ERROR_FILE_INVALID_PATH"
+  | .fileReadFailure => "AWS_ERROR_FILE_READ_FAILURE"
 
 /-- the live region with id `r` -/
 def region? (h : Heap) (r : Nat) : Option Region :=
@@ -418,7 +421,7 @@ def nospecMask (index bound : Nat) : Nat :=
   let negative := index ||| bound
   let toobig := subW (subW bound index) 1
   let combined := negative ||| toobig
-  let combined := (SIZE_MAX ^^^ combined) / (SIZE_MAX - SIZE_MAX / 2)     -- (~m) / 2^63
+  let combined := (SIZE_MAX - combined) / (SIZE_MAX - SIZE_MAX / 2)       -- (~m) / 2^63 ; ~m = SIZE_MAX - m on size_t
   (combined * SIZE_MAX) % W
 
 /-- `ptr & mask` : the model knows only the two masks the function can produce -/
@@ -688,6 +691,90 @@ def curParseU64 (h : Heap) (c : Cur) (base : Nat) : Except Fault (Option Err × 
     let cells ← c.load h 0 c.len
     .ok (readUnsignedLoop base (cells.map cellVal) 0)
 
+/-! ### aws_hash_array_ignore_case (FNV-1a over the lower-cased bytes) -/
+def fnv1aIgnoreCase (bs : List UInt8) : Nat :=
+  bs.foldl (fun hsh b => ((hsh ^^^ (tolower b).toNat) * 0x100000001b3) % W) 0xcbf29ce484222325
+
+/-- `aws_hash_byte_cursor_ptr_ignore_case` / `aws_hash_array_ignore_case(cursor->ptr, cursor->len)` -/
+def curHashIgnoreCase (h : Heap) (c : Cur) : Except Fault Nat := do
+  let cells ← c.load h 0 c.len
+  .ok (fnv1aIgnoreCase (cells.map cellVal))
+
+/-! ### aws_byte_buf_init_from_file[_with_size_hint] (source/file.c)
+
+The file is what the C library shows of it: whether `fopen` succeeds, the `st_size` that `fstat` reports, the
+bytes the successive `fread` calls deliver, and a schedule of short reads (a cap on what one call returns; a cap
+of 0 before the end of the data is a read error).  `feof` is true after a call that asked for more than was left. -/
+structure FileSim where
+  openOk : Bool
+  statLen : Nat
+  data : List UInt8
+  sched : List Nat
+deriving Repr
+
+/-- one `fread(p, 1, n, fp)`: (bytes delivered, feof afterwards, remaining data, remaining schedule) -/
+def freadSim (data : List UInt8) (sched : List Nat) (n : Nat) : List UInt8 × Bool × List UInt8 × List Nat :=
+  let want := if n < data.length then n else data.length
+  match sched with
+  | capk :: rest =>
+    if capk < want then (data.take capk, false, data.drop capk, rest)
+    else (data.take want, decide (n > data.length), data.drop want, rest)
+  | [] => (data.take want, decide (n > data.length), data.drop want, [])
+
+def MIN_BUFFER_GROWTH_READING_FILES : Nat := 32
+def MAX_BUFFER_GROWTH_READING_FILES : Nat := 4096
+
+/-- `if (len == capacity) reserve_relative(buf, add)` -/
+def growIfFull (m : Mem) (b : Buf) (add : Nat) : Except Fault (Option Err × Mem × Buf) :=
+  if b.len = b.cap then bufReserveRelative m b add else .ok (none, m, b)
+
+/-- the read loop of `s_byte_buf_init_from_file_impl` -/
+def fileReadLoop : Nat → Mem → Buf → List UInt8 → List Nat → Except Fault (Option Err × Mem × Buf)
+  | 0, m, b, _, _ => .ok (some .fileReadFailure, m, b)
+  | fuel + 1, m, b, data, sched => do
+    let grow := if MAX_BUFFER_GROWTH_READING_FILES < (if MIN_BUFFER_GROWTH_READING_FILES > b.cap then MIN_BUFFER_GROWTH_READING_FILES else b.cap)
+                then MAX_BUFFER_GROWTH_READING_FILES
+                else (if MIN_BUFFER_GROWTH_READING_FILES > b.cap then MIN_BUFFER_GROWTH_READING_FILES else b.cap)
+    let (e, m1, b1) ← growIfFull m b grow
+    match e with
+    | some er => .ok (some er, m1, b1)
+    | none =>
+      let r := freadSim data sched (subW b1.cap b1.len)
+      let h2 ← b1.store m1.heap b1.len (r.1.map some)          -- fread(out_buf->buffer + out_buf->len, 1, space, fp)
+      let b2 : Buf := { b1 with len := addW b1.len r.1.length }
+      if r.2.1 then .ok (none, { m1 with heap := h2 }, b2)
+      else if r.1.length = 0 then .ok (some .fileReadFailure, { m1 with heap := h2 }, b2)
+      else fileReadLoop fuel { m1 with heap := h2 } b2 r.2.2.1 r.2.2.2
+
+/-- success tail: make room for, and store, the NUL terminator (not counted in `len`) -/
+def fileTerminate (m : Mem) (b : Buf) : Except Fault (Option Err × Mem × Buf) := do
+  let (e, m1, b1) ← growIfFull m b 1
+  match e with
+  | some er => .ok (some er, m1, b1)
+  | none =>
+    let h2 ← b1.store m1.heap b1.len [some 0]
+    .ok (none, { m1 with heap := h2 }, b1)
+
+/-- `error:` label: `aws_byte_buf_clean_up_secure(out_buf); return AWS_OP_ERR;` -/
+def fileFail (er : Err) (m : Mem) (b : Buf) : Except Fault (Option Err × Mem × Buf) := do
+  let (m', b') ← bufCleanUpSecure m b
+  .ok (some er, m', b')
+
+/-- `s_byte_buf_init_from_file_impl` : the previous contents of `*out_buf` are discarded (AWS_ZERO_STRUCT) -/
+def bufInitFromFile (m : Mem) (f : FileSim) (useHint : Bool) (sizeHint : Nat) : Except Fault (Option Err × Mem × Buf) :=
+  if !f.openOk then fileFail .fileInvalidPath m Buf.zero else
+  if useHint && decide (f.statLen ≥ SIZE_MAX) then fileFail .overflow m Buf.zero else
+  let hint := if useHint then f.statLen + 1 else sizeHint
+  do
+    let (e, m1, b1) ← fileReadLoop (f.data.length + 2) (bufInit m hint).1 (bufInit m hint).2 f.data f.sched
+    match e with
+    | some er => fileFail er m1 b1
+    | none => do
+      let (e2, m2, b2) ← fileTerminate m1 b1
+      match e2 with
+      | some er => fileFail er m2 b2
+      | none => .ok (none, m2, b2)
+
 /-! ### the operation language over named slots -/
 
 structure State where
@@ -761,6 +848,8 @@ inductive Op where
   | compareLexical (a b : Nat)
   | compareLookup (a b : Nat)
   | parseU64 (c base : Nat)               -- base 10 / 16
+  | hashIgnoreCase (c : Nat)
+  | initFromFile (b : Nat) (f : FileSim) (useHint : Bool) (sizeHint : Nat)
 deriving Repr
 
 inductive Res where
@@ -978,6 +1067,13 @@ def step (s : State) : Op → Except Fault (Res × State)
   | .parseU64 c base => do
     let (e, v) ← curParseU64 s.mem.heap (s.curs c) base
     .ok (.codeVal e v, s)
+  | .hashIgnoreCase c => do
+    let v ← curHashIgnoreCase s.mem.heap (s.curs c)
+    .ok (.codeVal none v, s)
+  | .initFromFile b f useHint sizeHint =>
+    if sizeHint > SIZE_MAX then .error .badOperand else do
+    let (e, m, nb) ← bufInitFromFile s.mem f useHint sizeHint
+    .ok (.code e, { s with mem := m }.setBuf b nb)
 
 /-- run an op sequence; a faulting op (a caller error such as use of a dangling cursor) is skipped -/
 def run (s : State) : List Op → State
